@@ -20,7 +20,9 @@ PROP = {'engine': 'c07',
          'regression programs plus generated template / nested CALL-CALLCODE-DELEGATECALL-STATICCALL compositions, asset transfers into '
          'contracts, grammar programs and precompile calls run by the real EVM through the shadowing proxy. monitor 3: every block of '
          'scn.Cluster scenarios (all 11 tx types, random bytecode, discards) plus a fixed "funded, self-destructs, funded again" block: '
-         'RebuildAll(published block) on a fresh manager at the parent vs the state the node saved. distinct = distinct (operation-kind '
+         'RebuildAll(published block) on a fresh manager at the parent vs the state the node saved; and the miner\'s discard path: every third block is mined '
+         'under a small block gas limit (candidates and sub-transactions in the middle of a box run into the exhausted gas pool), and a block with candidates that were '
+         'tried and not packaged must equal the block the miner produces from the packaged list alone (compared only when both runs package the same ordered list). distinct = distinct (operation-kind '
          'sequence with revert levels | program kind, entry, snapshot/revert counts | set of change-log types of the block); non-trivial = at '
          'least 2 reverts, nesting >= 2 and 4 setter kinds | an EVM-issued revert with >= 2 live snapshots | a block with >= 3 log types',
  'assumptions': ['absent == empty for storage values, profile keys and asset-id metadata in observations (roots and change logs are compared exactly)',
@@ -28,6 +30,6 @@ PROP = {'engine': 'c07',
                  'the self-destruct flag is not saved with the account, so it is excluded from the redo-vs-saved-state comparison',
                  'RebuildAll skips the four *RootLog types, so the redo comparison is made through the getters without the roots'],
  'min_cases': {'quick': 700, 'thorough': 15000},
- 'min_stats': {'quick': {'direct_reverts_checked': 2000, 'evm_reverts_checked': 150, 'redo_blocks': 80, 'final_finalise_checks': 200, 'fresh_view_checks': 600},
+ 'min_stats': {'quick': {'direct_reverts_checked': 2000, 'evm_reverts_checked': 150, 'redo_blocks': 80, 'discard_blocks_checked': 40, 'final_finalise_checks': 200, 'fresh_view_checks': 600},
                'thorough': {'direct_reverts_checked': 50000, 'evm_reverts_checked': 4000, 'redo_blocks': 2000, 'final_finalise_checks': 5000, 'fresh_view_checks': 15000}},
  'timeout_s': {'quick': 600, 'thorough': 5400}}
